@@ -22,7 +22,8 @@ def runner_tasks(tier):
             {"module": "c05", "task": "f0", "kind": "eval", "clause": "x-ray form factor served per atom/ion (symbol+charge resolution), all 211 entries"},
             {"module": "c20", "task": "formfactors", "kind": "bounded", "clause": "form factor values on a Q grid; Q=0 exhaustive"},
             {"module": "c09", "task": "steps", "name": "first-touch steps", "kind": "eval", "arg": {"groups": ["covalent_radius", "crystal_structure", "emission", "magnetic_ff", "xray"]}, "clause": "every first touch of these data families (explicit init first included) serves the table entries", "timeout": 1500},
-            {"module": "c10", "task": "steps", "name": "private-table steps", "kind": "eval", "arg": {"modules": ["covalent_radius", "crystal_structure", "magnetic_ff", "xsf", "xsf_lines"]}, "clause": "private-table init of these modules: same entries, public untouched", "timeout": 1500}]
+            {"module": "c10", "task": "steps", "name": "private-table steps", "kind": "eval", "arg": {"modules": ["covalent_radius", "crystal_structure", "magnetic_ff", "xsf", "xsf_lines"]}, "clause": "private-table init of these modules: same entries, public untouched", "timeout": 1500},
+            {"module": "stateful", "task": "C20", "name": "stateful C20", "kind": "bounded", "clause": "form factors on caller-owned Q arrays of every layout; shared Q array across j0..J"}]
 
 
 REPLAY = {"module": "c20", "task": "replay"}
